@@ -178,3 +178,98 @@ class Report:
         print('[%s] OK: %d obligations, %d discharged, %d known finding(s); %.1fs' % (
             self.prop, n_inst, cov['discharged'], len(listed), wall))
         return 0
+
+
+class Alias:
+    """A view of a Report under which a rule written for one property runs as a rule of another one (a mechanism that is a necessary condition of both).
+    Rule ids are renamed by `mapping` (ids not in it get `prefix` + their own id); everything else goes to the underlying report, so keys, floors and
+    evidence carry the borrowing property's own rule id."""
+
+    def __init__(self, rep, mapping, note=''):
+        self._rep = rep
+        self._map = dict(mapping)
+        self._note = note
+
+    def _r(self, rid):
+        return self._map.get(rid, rid)
+
+    def rule(self, rid, text):
+        self._rep.rule(self._r(rid), text + (' [shared rule: %s]' % self._note if self._note else ''))
+
+    def ok(self, rule, key, detail='', where=''):
+        self._rep.ok(self._r(rule), key, detail, where)
+
+    def violation(self, rule, key, msg, where='', extra=None):
+        self._rep.violation(self._r(rule), key, msg, where, extra)
+
+    def check(self, cond, rule, key, ok_detail, bad_msg, where='', extra=None):
+        return self._rep.check(cond, self._r(rule), key, ok_detail, bad_msg, where, extra)
+
+    def floor(self, rule, count, floor, what):
+        return self._rep.floor(self._r(rule), count, floor, what)
+
+    def __getattr__(self, name):
+        return getattr(self._rep, name)
+
+
+class Borrow(Alias):
+    """Runs a whole rule module of another property and keeps only the rules named in `mapping` (renamed); everything else it reports is dropped. Used where a mechanism
+    checked under property X is a necessary condition of property Y too, so that `./check Y` decides it as well."""
+
+    def __init__(self, rep, mapping, note=''):
+        Alias.__init__(self, rep, mapping, note)
+        object.__setattr__(self, 'coverage_extra', {})
+        object.__setattr__(self, 'notes', [])
+
+    def _keep(self, rid):
+        return rid in self._map
+
+    def rule(self, rid, text):
+        if self._keep(rid):
+            Alias.rule(self, rid, text)
+
+    def ok(self, rule, key, detail='', where=''):
+        if self._keep(rule):
+            Alias.ok(self, rule, key, detail, where)
+
+    def violation(self, rule, key, msg, where='', extra=None):
+        if self._keep(rule):
+            Alias.violation(self, rule, key, msg, where, extra)
+
+    def check(self, cond, rule, key, ok_detail, bad_msg, where='', extra=None):
+        if self._keep(rule):
+            return Alias.check(self, cond, rule, key, ok_detail, bad_msg, where, extra)
+        return cond
+
+    def floor(self, rule, count, floor, what):
+        if self._keep(rule):
+            return Alias.floor(self, rule, count, floor, what)
+        return True
+
+    def assume(self, *a):
+        pass
+
+    def __setattr__(self, name, value):
+        if name in ('explanation',):
+            return
+        object.__setattr__(self, name, value)
+
+    @property
+    def instances(self):
+        return self._rep.instances
+
+    @property
+    def violations(self):
+        return self._rep.violations
+
+
+def borrow(rep, facts, tier, lender, mapping):
+    """Run rules/<lender>.py and keep the rules of `mapping` under the borrower's ids."""
+    import importlib
+    mod = importlib.import_module('rules.%s' % lender)
+    need = [c for c in getattr(mod, 'CONFIGS', ['default']) if c not in facts]
+    if need:
+        from rdv import core, extract
+        for c in need:
+            facts[c] = core.Facts(extract.load(c))
+    mod.run(Borrow(rep, mapping, note='%s %s' % (lender, ', '.join(sorted(mapping)))), facts, tier)
